@@ -55,19 +55,6 @@ Proof.
   intros H. now rewrite (str_eqb_true _ _ H).
 Qed.
 
-(** sweeps are stated as "the list of failing elements is empty", so that a
-    broken sweep names the offenders in the error message *)
-Lemma filter_negb_nil {A} (f : A -> bool) l :
-  filter (fun x => negb (f x)) l = [] -> forall x, In x l -> f x = true.
-Proof.
-  induction l as [|a l IH]; cbn [filter]; intros H x []; subst.
-  - destruct (f x); [reflexivity|discriminate].
-  - destruct (f a); cbn [negb] in H; [auto|discriminate].
-Qed.
-
-Lemma offenders_nil {A} (f : A -> bool) l : filter (fun x => negb (f x)) l = [] -> forallb f l = true.
-Proof. intros H. apply forallb_forall. exact (filter_negb_nil f l H). Qed.
-
 Lemma flat_map_nil {A B} (f : A -> list B) l : flat_map f l = [] -> forall x, In x l -> f x = [].
 Proof.
   induction l as [|a l IH]; cbn [flat_map]; intros H x []; subst; apply app_eq_nil in H; destruct H as [H1 H2]; auto.
